@@ -398,7 +398,7 @@ def make_replay(chk, rep, scn=None):
             finally:
                 if proj.startswith('/var/tmp/'):
                     shutil.rmtree(proj, ignore_errors=True)
-        if c.get('kind') in ('record', 'crash', 'buildjob'):
+        if c.get('kind') in ('record', 'crash', 'buildjob', 'jobstatus', 'argv', 'tmpname'):
             from specs import buildjob
             return buildjob.make_replay(chk, rep, scn)(c)
         return False, 'no replay for kind %r' % c.get('kind')
